@@ -36,6 +36,20 @@ ExpandFrom(rows, k, tg) ==
             THEN [n \in 1..Len(tg) |-> [t EXCEPT !.af = tg[n], !.grp = TRUE]]
             ELSE <<t>>) \o ExpandFrom(rows, k + 1, tg)
 
+\* Input validation ahead of the bookkeeping (splits.rs): a split for all affiliates that stands within one
+\* day (trade dates) of an affiliate-specific split of the same security is taken for a duplicated entry
+\* and the run is refused.  The scan walks the ordered rows away from the global split and stops at the
+\* first row whose trade date is more than a day off, whatever that row is.
+IsGlobSplit(t) == t.act = "Split" /\ t.af = GlobalAf
+IsAffSplit(t)  == t.act = "Split" /\ t.af # GlobalAf
+NearBack(o, i) == \E k \in 1..(i - 1) : IsAffSplit(o[k]) /\ \A j \in k..(i - 1) : o[i].td - o[j].td <= 1
+NearFwd(o, i)  == \E k \in (i + 1)..Len(o) : IsAffSplit(o[k]) /\ \A j \in (i + 1)..k : o[j].td - o[i].td <= 1
+DupSplit(rows) == LET o == Order(rows) IN \E i \in DOMAIN o : IsGlobSplit(o[i]) /\ (NearBack(o, i) \/ NearFwd(o, i))
+\* a sufficient condition the input generators use: no affiliate-specific split within a day of a global one
+NoSplitWithinADay(rows) ==
+  \A i, k \in DOMAIN rows : (IsGlobSplit(rows[i]) /\ IsAffSplit(rows[k])) =>
+     (rows[i].td - rows[k].td > 1 \/ rows[k].td - rows[i].td > 1)
+
 \* processing order of one security's rows (given in any order, each carrying its read index)
 Prepare(rows, hasOpening) ==
   LET o == Order(rows) IN ExpandFrom(o, 1, SetSeq(SplitTargets(o, hasOpening)))
